@@ -181,6 +181,14 @@ func (r *Run) finish(out string) {
 	}
 }
 
+// Abort ends the worker at once after recording why (used when a call under test does not
+// return: its goroutine cannot be stopped and would starve the single P for the rest of the run).
+func (r *Run) Abort(why string) {
+	r.Cap(why)
+	r.finish(os.Getenv("VERIF_OUT"))
+	os.Exit(0)
+}
+
 type Check func(r *Run)
 
 // Main dispatches to the check selected by VERIF_PROP. Without VERIF_PROP it does nothing, so
